@@ -2,7 +2,7 @@
 from ..rules import branching, model, optimize, process
 
 EXPLANATION = (
-    "Static analysis of branch-and-bound by restart: in optimize and optimize_and_queue every improving iteration does solve -> reset(this solver's stacks) -> tighten(stack, top, dom_indices, dom_offsets, variable_idx, incumbent[variable_idx]); an exit edge after the tightening reads both bounds of the objective's shared domain (emptiness guard); the incumbent is recorded / queued and the last one returned; minimize<->decrease_max and maximize<->increase_min; decrease_max stores value-1-offset into (dom_indices[var], MAX), increase_min value+1-offset into (.., MIN); reset = cp_init from the problem's initial domains + full re-trigger; is_solved over all domains. Not optimality as a value. Also: the multiprocessing reducer keeps the best with the comparison that matches the direction; cp_init (what a restart re-establishes) resets top, domains and the enabled flags. Round 3: a maybe-None optimisation result is tested against None before it is subscripted."
+    "Static analysis of branch-and-bound by restart: in optimize and optimize_and_queue every improving iteration does solve -> reset(this solver's stacks) -> tighten(stack, top, dom_indices, dom_offsets, variable_idx, incumbent[variable_idx]); an exit edge after the tightening reads both bounds of the objective's shared domain (emptiness guard); the incumbent is recorded / queued and the last one returned; minimize<->decrease_max and maximize<->increase_min; decrease_max stores value-1-offset into (dom_indices[var], MAX), increase_min value+1-offset into (.., MIN); reset = cp_init from the problem's initial domains + full re-trigger; is_solved over all domains. Not optimality as a value. Also: the multiprocessing reducer keeps the best with the comparison that matches the direction; cp_init (what a restart re-establishes) resets top, domains and the enabled flags. Round 3: a maybe-None optimisation result is tested against None before it is subscripted. Round 4: no solver code stores into the problem object (an objective bound left in the model makes the next optimisation of the same problem return None)."
 )
 
 
